@@ -129,6 +129,8 @@ def main(argv):
         rres = rres.get()
         sres = sres.get()
 
+    for old in glob.glob(os.path.join(HERE, "replays", "%s-%s-*.json" % (prop, base_seed))):
+        os.remove(old)
     status = 0
     errors = []
     violations = []
